@@ -39,7 +39,9 @@ RULE = (
     "history: Hypothesis-generated DAG programs (2-5 tracer functions; diamonds, tuple outputs, defaults, bound, "
     "renames, nullary) with a drawn non-empty subset of cache=True functions, built twice: cached (cache_type in "
     "{simple, lru, hybrid, disk}, non-shared mostly, Manager-shared or the implicit default cache rarely; capacity >= "
-    "functions x calls, rarely 1-2) and uncached (cache_type=None, no flags), separate tracer logs. A drawn history of "
+    "functions x calls, rarely 1-2) and uncached (cache_type=None, no flags), separate tracer logs; in a third of the "
+    "histories every function that needs no PipeFunc option is handed to Pipeline as a bare callable and its cache flag "
+    "is switched on through pipeline[name] afterwards. A drawn history of "
     "4-12 operations is applied to both: call through pipeline()/run()/run(full_output=True)/func() of a drawn output "
     "(single or tuple name) with a root-only cut or a cut listed by arg_combinations that supplies intermediates, values "
     "from a 2-element pool, defaults relied on or given; exact repeat of the previous call in another style; "
@@ -293,6 +295,8 @@ def histories(draw):
         "disk_lru": draw(st.booleans()),
         "opaque": draw(st.integers(0, 3)) == 0,  # root values are unhashable objects whose str() hides their content
         "ops": [draw(_op(["call"]))] + draw(st.lists(_op(), min_size=2, max_size=9)) + [draw(_op(["call", "repeat", "repeat"]))],
+        # functions that need no PipeFunc option are handed to Pipeline as bare callables (wrapped by Pipeline.add)
+        "plain": draw(st.integers(0, 2)) == 0,
     }
 
 
@@ -343,6 +347,12 @@ class _Twins:
     # -- construction -------------------------------------------------------------------------
     def build(self) -> bool:
         d = self.data
+        if d.get("plain") and d["cache_type"] != "auto":
+            from vlib.dag import plain_eligible
+
+            self.cur["plain_callables"] = True
+            if any(plain_eligible(fn) for fn in self.cur["funcs"]):
+                self.labels.add("built-from-plain-callables")
         uprog = copy.deepcopy(self.cur)
         for fn in uprog["funcs"]:
             fn["cache"] = False
